@@ -170,7 +170,10 @@ RandMember(ctx) ==
   LET r == IF Call /\ ctx.nmembers = 0 THEN 1 ELSE Pct(0) IN
   IF r <= 18 THEN
        LET tm == IF Pct(0) <= 20 THEN RandTmpl(ctx, TRUE) ELSE <<>>
-       IN IF Exec THEN Ctor(ctx.cls, <<>>, RandArgsN(ctx, IF ctx.nmembers > 4 THEN 4 ELSE ctx.nmembers))
+           \* (C++ has no constructor taking its own class by value: such a parameter becomes a const reference)
+           fix(as) == [i \in 1..Len(as) |-> IF as[i].t.qn = <<"This">> /\ as[i].t.q = ""
+                                            THEN [as[i] EXCEPT !.t = [as[i].t EXCEPT !.q = "&", !.const = TRUE]] ELSE as[i]]
+       IN IF Exec THEN Ctor(ctx.cls, <<>>, fix(RandArgsN(ctx, IF ctx.nmembers > 4 THEN 4 ELSE ctx.nmembers)))
           ELSE Ctor(ctx.cls, tm, RandArgs(WithParams(ctx, tm), 3))
   ELSE IF r <= 50 THEN
        LET tm == IF Pct(0) <= 20 THEN RandTmpl(ctx, TRUE) ELSE <<>>
